@@ -794,6 +794,16 @@ func (e *Exec) evalCall(env *Env, x *ast.CallExpr) (Val, error) {
 				return Val{T: tInt, Term: app("str.len", v.Term)}, nil
 			}
 			return Val{}, fmt.Errorf("len of %s", v.T)
+		case "cur":
+			// cur(name): the current value of a local variable (not the parameter's initial value)
+			n := exprString(x.Args[0])
+			if a, ok := e.localAddrs[n]; ok {
+				return e.load(env.cur, e.addrOf(a)), nil
+			}
+			if v, ok := e.localNames[n]; ok {
+				return v, nil
+			}
+			return Val{}, fmt.Errorf("cur(%s): no such local", n)
 		case "cap":
 			v, err := e.eval(env, x.Args[0])
 			if err != nil {
